@@ -29,6 +29,8 @@ def run(ctx):
     _cs.general_rules(ctx, 'R7', ['writer.write', 'writer.write_simple', 'writer.write_multi', 'writer.partition_on_columns', 'writer.make_part_file', 'api.ParquetFile.write_row_groups', 'writer.write_common_metadata', 'writer.consolidate_categories', 'api.ParquetFile._dtypes', 'api.ParquetFile._set_attrs', 'writer.write_column', 'writer.make_row_group'])
     ar.single_pass_data_rule(ctx, 'R7.5')
     r77(ctx)
+    from . import c10
+    c10.r1010(ctx, 'R7.8')
 
 
 def r77(ctx, rule='R7.7'):
